@@ -92,8 +92,19 @@ pub fn gen_ops(rng: &mut Rng, data: &[u8]) -> Vec<Op> {
             5 => ops.push(Op::WriteVectored(a, a + (b - a) / 2, b)),
             6 | 7 => ops.push(Op::WriteFmt(a, b)),
             _ => {
+                // a flush followed by any kind of call (also: only vectored writes between two flushes)
                 ops.push(Op::Flush);
-                ops.push(Op::WriteAll(a, b));
+                match rng.below(4) {
+                    0 => ops.push(Op::WriteAll(a, b)),
+                    1 => ops.push(Op::Write(a, b)),
+                    2 => ops.push(Op::WriteFmt(a, b)),
+                    _ => {
+                        ops.push(Op::WriteVectored(a, a + (b - a) / 2, b));
+                        if rng.chance(1, 2) {
+                            ops.push(Op::Flush);
+                        }
+                    }
+                }
             }
         }
     }
